@@ -975,7 +975,27 @@ impl Campaign for C17 {
                 }
                 let expired = if cfg!(miri) { stable > 400 } else { start.elapsed() > Duration::from_millis(5000) };
                 if expired {
-                    let parked = obs().parked.iter().any(|p| p.load(Ordering::Relaxed) > 0);
+                    let mut parked = obs().parked.iter().any(|p| p.load(Ordering::Relaxed) > 0);
+                    if parked && !cfg!(miri) {
+                        // An unparked thread that the OS has not scheduled yet still looks parked.
+                        // Scheduling canaries: threads made runnable *after* the waiter must have run
+                        // (three rounds) while the waiter is still parked, before this is a verdict.
+                        for _ in 0..3 {
+                            let ran = AtomicBool::new(false);
+                            std::thread::scope(|cs| {
+                                cs.spawn(|| ran.store(true, Ordering::Release));
+                            });
+                            debug_assert!(ran.load(Ordering::Acquire));
+                            std::thread::sleep(Duration::from_millis(700));
+                            parked = obs().parked.iter().any(|p| p.load(Ordering::Relaxed) > 0);
+                            if !parked || waiter_done.load(Ordering::Acquire) {
+                                break;
+                            }
+                        }
+                        if waiter_done.load(Ordering::Acquire) {
+                            break;
+                        }
+                    }
                     if parked && state.load(Ordering::Acquire) >= target {
                         lost = Some(format!(
                             "waiter is parked although the awaited state ({target}) was published and every notify() returned (register_late={register_late})"
